@@ -338,6 +338,92 @@ theorem equal_execs_share (S : Rat) (hS : 0 < S) (n : Nat) (x : List Rat) (h : M
       have hne : (x.length : Rat) ≠ 0 := by grind
       rw [hall v hv, ← hprod, Rat.mul_div_cancel hne]
 
+/-! ### equal_execs_share_threads: the same for execs of `t` threads each, and the link with `equal_execs_share` -/
+
+/-- symmetric max-min system in general form: `k = x.length` variables of equal penalty and bound `B` on one constraint
+of capacity `C` (weight 1): feasibility + bottleneck condition force `min(B, C/k)` for everybody -/
+theorem sym_share (B C : Rat) (x : List Rat) (hbound : ∀ v ∈ x, v ≤ B) (hcap : x.sum ≤ C)
+    (hbn : ∀ v ∈ x, v = B ∨ (x.sum = C ∧ ∀ w ∈ x, w ≤ v)) :
+    ∀ v ∈ x, v = if (x.length : Rat) * B ≤ C then B else C / x.length := by
+  intro v hv
+  have hk : 0 < x.length := List.length_pos_of_mem hv
+  have hkq : (0 : Rat) < (x.length : Rat) := Rat.natCast_pos.mpr hk
+  split
+  · rename_i hkn
+    rcases hbn v hv with h1 | ⟨hsum, hmax⟩
+    · exact h1
+    · have hb := hbound v hv
+      by_cases hlt : v < B
+      · exfalso
+        have h1 := sum_le_of_forall_le x v hmax
+        have h2 : (x.length : Rat) * v < x.length * B := (Rat.mul_lt_mul_left hkq).mpr hlt
+        grind
+      · grind
+  · rename_i hkn
+    have hex : ∃ v0 ∈ x, v0 < B := by
+      apply Classical.byContradiction
+      intro hno
+      have hall : ∀ w ∈ x, w = B := by
+        intro w hw
+        have h1 := hbound w hw
+        have h2 : ¬ w < B := fun hl => hno ⟨w, hw, hl⟩
+        grind
+      have h1 := sum_eq_of_forall_eq x B hall
+      grind
+    obtain ⟨v0, hv0, hlt0⟩ := hex
+    rcases hbn v0 hv0 with h1 | ⟨hsum, hmax0⟩
+    · grind
+    · have hall : ∀ w ∈ x, w = v0 := by
+        intro w hw
+        have hw0 := hmax0 w hw
+        rcases hbn w hw with h1 | ⟨_, hmaxw⟩
+        · grind
+        · have := hmaxw v0 hv0; grind
+      have h1 := sum_eq_of_forall_eq x v0 hall
+      have hprod : v0 * x.length = C := by rw [Rat.mul_comm v0]; grind
+      have hne : (x.length : Rat) ≠ 0 := by grind
+      rw [hall v hv, ← hprod, Rat.mul_div_cancel hne]
+
+/-- max-min fair allocations of `k = x.length` execs of `t` threads each (`variable_new(action, 1/t, t·S, 1)`: equal
+penalties, bound `t·S`) on an `n`-core host of speed `S` (capacity `n·S`, weight 1) -/
+structure MaxMinSymT (S : Rat) (n t : Nat) (x : List Rat) : Prop where
+  nonneg : ∀ v ∈ x, 0 ≤ v
+  bound : ∀ v ∈ x, v ≤ t * S
+  cap : x.sum ≤ n * S
+  bottleneck : ∀ v ∈ x, v = t * S ∨ (x.sum = n * S ∧ ∀ w ∈ x, w ≤ v)
+
+/-- **equal_execs_share_threads**: in every max-min fair allocation of `k` equal `t`-thread execs on an `n`-core host of
+speed `S`, each progresses at `S·min(t, n/k)` (`equalShareT`: what the per-step monitor of the driver compares the sampled
+runs with, `S` being the speed the platform description puts in force during the step). -/
+theorem equal_execs_share_threads (S : Rat) (hS : 0 < S) (n t : Nat) (x : List Rat) (h : MaxMinSymT S n t x) :
+    ∀ v ∈ x, v = equalShareT S n x.length t := by
+  intro v hv
+  have key := sym_share (t * S) (n * S) x h.bound h.cap h.bottleneck v hv
+  rw [key]
+  unfold equalShareT
+  have hassoc : (x.length : Rat) * (t * S) = ((x.length * t : Nat) : Rat) * S := by
+    rw [Rat.natCast_mul, Rat.mul_assoc]
+  by_cases hc : x.length * t ≤ n
+  · have h1 : ((x.length * t : Nat) : Rat) * S ≤ n * S :=
+      Rat.mul_le_mul_of_nonneg_right (Rat.natCast_le_natCast.mpr hc) (Rat.le_of_lt hS)
+    rw [if_pos (by rw [hassoc]; exact h1), if_pos hc]
+  · have h1 : (n : Rat) * S < ((x.length * t : Nat) : Rat) * S :=
+      (Rat.mul_lt_mul_right hS).mpr (Rat.natCast_lt_natCast.mpr (by omega))
+    have h2 : ¬ ((x.length : Rat) * (t * S) ≤ n * S) := by rw [hassoc]; grind
+    rw [if_neg h2, if_neg hc, Rat.mul_comm]
+
+/-- single-core execs are the `t = 1` instance -/
+theorem equalShareT_one (S : Rat) (n k : Nat) : equalShareT S n k 1 = equalShare S n k := by
+  unfold equalShareT equalShare
+  simp [Rat.one_mul]
+
+/-- `MaxMinSymT` is inhabited: 2 execs of 2 threads on 4 cores of speed 6 get 12 each; 3 execs of 2 threads get 8 each -/
+example : MaxMinSymT 6 4 2 [12, 12] := by
+  refine ⟨?_, ?_, ?_, ?_⟩ <;> simp <;> grind
+
+example : MaxMinSymT 6 4 2 [8, 8, 8] := by
+  refine ⟨?_, ?_, ?_, ?_⟩ <;> simp <;> grind
+
 /-! ### non-vacuity -/
 
 /-- hypotheses of `work_conserved` / `remaining_monotone` are satisfiable by a non-trivial history -/
